@@ -142,6 +142,9 @@ type admCall struct {
 	TP        map[string][]int32 // ListConsumerGroupOffsets (nil = all)
 	BrokerIDs []int32            // DescribeLogDirs
 	Fault     admFault
+	// Readdress (coordinator-bound operations on a shared admin): before the call the broker that coordinates
+	// the call's (first) group gets a new address; the admin's metadata still lists the old one, which is gone
+	Readdress bool
 }
 
 func (c *admCall) preString() string {
@@ -499,6 +502,18 @@ func admCore(tier string) []admCase {
 			if B == 3 {
 				out = append(out, admCase{Name: fmt.Sprintf("own-shared/%s/B%d", op, B), Op: op, RetryMax: 2, Version: v, Brokers: B, Shared: true, Calls: admLeaderCallsNoDrops(admLeaderCalls(op, B, v, false))})
 			}
+			if B >= 2 && (op == admGroupOffsets || op == admDescribeGroups || op == admDeleteGroup) {
+				// the coordinator of the next call's group changes its address between calls
+				var calls []*admCall
+				for i := 0; i < 6; i++ {
+					c := admCall{Op: op, Readdress: i%2 == 1}
+					if op == admDescribeGroups {
+						c.Groups = 1 + i%2
+					}
+					calls = append(calls, &c)
+				}
+				out = append(out, admCase{Name: fmt.Sprintf("own-readdress/%s/B%d", op, B), Op: op, RetryMax: 2, Version: v, Brokers: B, Shared: true, Calls: calls})
+			}
 		}
 	}
 	// Kafka versions that change the request versions (or make the operation unavailable)
@@ -679,6 +694,7 @@ type admCallRun struct {
 	B              int
 	assignment     [][]int32
 	out            admOutcome
+	readdressed    int32 // broker that got a new address just before the call (0 = none)
 }
 
 // owns tells whether a request with these items belongs to this call.
@@ -1055,6 +1071,20 @@ func (r *admRun) prepare(cr *admCallRun) {
 		}
 	}
 
+	if call.Readdress && r.cs.Shared {
+		owner := int32(-1)
+		switch call.Op {
+		case admGroupOffsets, admDeleteGroup:
+			owner = admOwnerOfGroup(cr.idx, B)
+		case admDescribeGroups:
+			owner = admOwnerOfGroup(0, B)
+		}
+		if owner > 0 {
+			sim.Readdress(owner)
+			cr.readdressed = owner
+			r.obs["calls_after_coordinator_readdressed"]++
+		}
+	}
 	cr.assignment = assignment
 }
 
